@@ -43,6 +43,58 @@ fn line_intersects() {
         assert!(got == expect, "WITNESS Line2 a=({},{})-({},{}) b=({},{})-({},{}): intersects()={} but the closed segments {}cross",
             a.start.x, a.start.y, a.end.x, a.end.y, b.start.x, b.start.y, b.end.x, b.end.y, got, if expect { "" } else { "do not " });
     }
+    line_near_touch();
+}
+
+/// V:pairs:intersects:line.intersects — near misses: a segment ending a tiny (exactly representable) distance short of / beyond another
+fn line_near_touch() {
+    let mut r = rng();
+    for _ in 0..N / 4 {
+        let g = |r: &mut Pcg64Mcg| (r.gen_range(-8, 9) as f64) * 0.25;
+        // b is horizontal at height y0; a comes down vertically onto it and stops `gap` above (no crossing) or below (crossing)
+        let (x0, y0, len) = (g(&mut r), g(&mut r), (r.gen_range(1, 9) as f64) * 0.25);
+        let gap = 2f64.powi(-r.gen_range(20, 31));
+        let above = r.gen::<bool>();
+        let t = (r.gen_range(1, 8) as f64) * 0.125;
+        let b = Line2::new((x0, y0), (x0 + len, y0));
+        let xe = x0 + t * len;
+        let a = Line2::new((xe, y0 + 1.), (xe, if above { y0 + gap } else { y0 - gap }));
+        let (got1, got2) = (a.intersects(&b), b.intersects(&a));
+        assert!(got1 == !above && got2 == !above, "WITNESS Line2 a=({},{})-({},{}) b=({},{})-({},{}): a ends {} {} b: intersects() = {} / {}",
+            a.start.x, a.start.y, a.end.x, a.end.y, b.start.x, b.start.y, b.end.x, b.end.y, gap, if above { "above" } else { "below" }, got1, got2);
+    }
+}
+
+/// V:pairs:area:* / V:pairs:area_edge:* / V:pairs:overlap_area:* — polygon area against the shoelace formula of its vertices, the lens of two
+/// discs against the closed form written with the chord half-angle on each side
+#[test]
+fn shape_areas() {
+    use packing::{LineShape, MolecularShape2};
+    let mut r = rng();
+    for _ in 0..20000 {
+        let n = r.gen_range(3, 9);
+        let radii: Vec<f64> = (0..n).map(|_| (r.gen_range(4, 17) as f64) * 0.125).collect();
+        let shape = LineShape::from_radial("w", radii.clone()).unwrap();
+        let pts: Vec<(f64, f64)> = shape.items.iter().map(|l| (l.start.x, l.start.y)).collect();
+        let shoelace = 0.5 * (0..pts.len()).map(|i| { let (p, q) = (pts[i], pts[(i + 1) % pts.len()]); p.0 * q.1 - q.0 * p.1 }).sum::<f64>().abs();
+        let got = shape.area();
+        assert!((got - shoelace).abs() <= 1e-9 * shoelace.max(1.), "WITNESS LineShape::from_radial({:?}): area() = {} but its vertices enclose {}", radii, got, shoelace);
+    }
+    for _ in 0..20000 {
+        // a trimer whose two satellites do not touch each other and are not inside the central disc: area = three discs minus two lenses
+        let (radius, distance) = ((r.gen_range(2, 9) as f64) * 0.125, (r.gen_range(2, 17) as f64) * 0.125);
+        if distance + radius <= 1. || distance >= 1. + radius || distance <= radius { continue; }
+        let shape = MolecularShape2::from_trimer(radius, 180., distance);
+        let lens = {
+            let (r1, r2, d) = (1f64, radius, distance);
+            let a1 = ((d * d + r1 * r1 - r2 * r2) / (2. * d * r1)).acos();
+            let a2 = ((d * d + r2 * r2 - r1 * r1) / (2. * d * r2)).acos();
+            r1 * r1 * (a1 - a1.sin() * a1.cos()) + r2 * r2 * (a2 - a2.sin() * a2.cos())
+        };
+        let want = std::f64::consts::PI * (1. + 2. * radius * radius) - 2. * lens;
+        let got = shape.area();
+        assert!((got - want).abs() <= 1e-9 * want, "WITNESS MolecularShape2::from_trimer({}, 180, {}): area() = {} but three discs minus two lenses is {}", radius, distance, got, want);
+    }
 }
 
 /// V:pairs:intersects:atom.overlap / atom.apart
@@ -65,12 +117,14 @@ fn atom_intersects() {
 fn lj_energy() {
     let mut r = rng();
     for _ in 0..N {
-        let (sigma, eps) = (r.gen_range(0.5, 2.5), r.gen_range(0.25, 3.));
-        let cutoff = if r.gen::<bool>() { Some(r.gen_range(1.5, 4.)) } else { None };
-        let a = LJ2 { position: nalgebra::Point2::new(pick(&mut r, 2.), pick(&mut r, 2.)), sigma, epsilon: eps, cutoff };
-        let b = LJ2 { position: nalgebra::Point2::new(pick(&mut r, 2.), pick(&mut r, 2.)), sigma, epsilon: eps, cutoff };
+        // the law is scale free: the same configuration in units from 1e-10 (metres for an atom) to 1e3
+        let unit = match r.gen_range(0, 4) { 0 => 10f64.powi(r.gen_range(-10, 4)), _ => 1. };
+        let (sigma, eps) = (r.gen_range(0.5, 2.5) * unit, r.gen_range(0.25, 3.));
+        let cutoff = if r.gen::<bool>() { Some(r.gen_range(1.5, 4.) * unit) } else { None };
+        let a = LJ2 { position: nalgebra::Point2::new(pick(&mut r, 2.) * unit, pick(&mut r, 2.) * unit), sigma, epsilon: eps, cutoff };
+        let b = LJ2 { position: nalgebra::Point2::new(pick(&mut r, 2.) * unit, pick(&mut r, 2.) * unit), sigma, epsilon: eps, cutoff };
         let d = ((a.position.x - b.position.x).powi(2) + (a.position.y - b.position.y).powi(2)).sqrt();
-        if d < 0.3 { continue; }
+        if d < 0.3 * unit { continue; }
         let law = |x: f64| 4. * eps * ((sigma / x).powi(12) - (sigma / x).powi(6));
         let expect = match cutoff { None => law(d), Some(c) => if d < c { law(d) - law(c) } else { 0. } };
         let got = a.energy(&b);
